@@ -101,10 +101,11 @@ theorem resend_chain (env : Env) (T : Nat) : ∀ (m : Nat) (c : Conn) (p : Packe
       simp only [Conn.advance, hs, Sched.nextDeadline, List.foldl_cons, List.foldl_nil, hd, if_true, Sched.takeDue,
         List.filter_cons, List.filter_nil, Nat.le_refl, decide_true, Bool.not_true, List.filterMap_cons, List.filterMap_nil,
         Option.map_none, List.map_cons, List.map_nil, List.append_nil, Bool.false_eq_true, if_false, if_true,
-        Conn.fireAll, Conn.fire]
+        Conn.fireAll, Conn.fireOne, Conn.fire]
       have hk' : ¬ k < ({ c with sched := some ⟨n, []⟩ } : Conn).resendLimit := by
         show ¬ k < c.resendLimit; omega
       rw [resend_step_limit env d _ p k hk']
+      simp only [cleanup_no_error]
       have hrel := cleanup_released ({ c with sched := some ⟨n, []⟩ } : Conn)
       have hsome : (({ c with sched := some ⟨n, []⟩ } : Conn).cleanup.c).sched.isSome := by
         simp [Conn.cleanup, R.ok]
@@ -125,7 +126,7 @@ theorem resend_chain (env : Env) (T : Nat) : ∀ (m : Nat) (c : Conn) (p : Packe
       simp only [Conn.advance, hs, Sched.nextDeadline, List.foldl_cons, List.foldl_nil, hd, if_true, Sched.takeDue,
         List.filter_cons, List.filter_nil, Nat.le_refl, decide_true, Bool.not_true, List.filterMap_cons, List.filterMap_nil,
         Option.map_none, List.map_cons, List.map_nil, List.append_nil, Bool.false_eq_true, if_false, if_true,
-        Conn.fireAll, Conn.fire]
+        Conn.fireAll, Conn.fireOne, Conn.fire]
       have hk' : k < ({ c with sched := some ⟨n, []⟩ } : Conn).resendLimit := by
         show k < c.resendLimit; omega
       have hl' : ({ c with sched := some ⟨n, []⟩ } : Conn).linkUp = true := hl
